@@ -323,6 +323,9 @@ impl<'a> Checker<'a> {
             self.rep.count("outcome/decoder-refused");
         } else if refwire::walk(&m.bytes).map(|x| x.sections[2].iter().any(|r| r.rtype == reftsig::T_TSIG)).unwrap_or(false) {
             self.rep.nontrivial(fnv64(&m.bytes) ^ now);
+            let vtxt = format!("{:?}", verdict);
+            let (zc, ax) = (o.zone_changed, o.axfr_data);
+            self.rep.sample(|| json!({"mutation": m.class, "server_clock": now, "bytes": hex(&m.bytes), "reference_verdict": vtxt, "zone_changed": zc, "axfr_data": ax}));
         }
         if let Some(p) = &o.panic {
             self.rep.violation("panic", &format!("{}:{}", p.site(), base_class), mk_case(w, &m.bytes, now, &m.class), json!("no panic"), json!({"message": p.message, "location": p.location}));
